@@ -37,6 +37,8 @@ def run(rep, ix, tier):
     check_seeks(rep, ix, pm)
     check_index_scan(rep, ix, pm)
     check_forward(rep, ix)
+    check_seek_targets(rep, ix, pm)
+    rep.floor('R-C02-TARGET', 10)
     rep.floor('R-C02-BUDGET', 5)
     rep.floor('R-C02-SAME', 8)
     rep.floor('R-C02-SEEK', 4)
@@ -346,3 +348,44 @@ def check_forward(rep, ix):
     ok = any(isinstance(n, ast.Assign) and attr_chain(n.targets[0]) == 'self.lr_pos_desc' and
              ast.unparse(n.value).replace(' ', '') == 'list(self.rp66v1_file.iter_logical_record_positions())' for n in walk_no_nested(ent))
     rep.ob('R-C02-FORWARD', f'{MI}:LogicalRecordIndex._enter', 'index = list of the position scan, in order', ok, node=ent, module=im)
+
+
+# every seek of the reader goes to a recorded record boundary (start of the file / of the first visible record, start of a
+# visible record, start of a segment header as recorded by the previous header); a position computed from data lengths
+# misses trailers (checksum, trailing length) and padding
+SEEK_TARGETS = {
+    '0': 'start of file',
+    'StorageUnitLabel.SIZE': 'first visible record',
+    'self.visible_record.position': 'current visible record',
+    'vr_given.position': 'the given visible record',
+    'self.logical_record_segment_header.next_position': 'next segment header = position + segment length',
+    'position.vr_position': 'indexed visible record',
+    'position.lrsh_position': 'indexed segment header',
+    'self.next_position': 'next visible record = position + record length',
+}
+
+
+def check_seek_targets(rep, ix, pm):
+    from .. import defuse
+    n = 0
+    for cname in ('VisibleRecord', 'LogicalRecordSegmentHeader', 'FileRead'):
+        cls = ix.get_class(M, cname)
+        for f in cls.body:
+            if not isinstance(f, ast.FunctionDef):
+                continue
+            for c in common.calls_in(f):
+                if isinstance(c.func, ast.Attribute) and c.func.attr == 'seek' and len(c.args) >= 1:
+                    n += 1
+                    tgt = defuse.inline_locals(f, c.args[0], depth=3)
+                    txt = ast.unparse(tgt).replace(' ', '')
+                    # parameters are named differently per function: normalise the two parameter roles
+                    params = [a.arg for a in f.args.args]
+                    ok = txt in SEEK_TARGETS or (len(c.args) == 1 and any(txt == f'{p}.{a}' for p in params[1:] for a in ('position', 'vr_position', 'lrsh_position')))
+                    rep.ob('R-C02-TARGET', f'{M}:{cname}.{f.name}', f'seek({ast.unparse(c.args[0])}) goes to a recorded record boundary', ok,
+                           found=txt, required='one of: ' + ', '.join(sorted(SEEK_TARGETS)), node=c, module=pm)
+    for pname, cname in (('next_position', 'VisibleRecord'), ('next_position', 'LogicalRecordSegmentHeader')):
+        f = ix.get_func(M, f'{cname}.{pname}')
+        r = common.returns_of(f)
+        rep.ob('R-C02-TARGET', f'{M}:{cname}.{pname}', 'the next boundary is position + length of the whole record / segment (trailer and padding included)',
+               len(r) == 1 and show(nf(r[0].value)) == common.nfs('self.position + self.length'), node=f, module=pm)
+    rep.ob('R-C02-TARGET', f'{M}:FileRead', 'seeks found', n >= 9, found=str(n), module=pm)
